@@ -5,7 +5,7 @@
    Histories are arbitrary lists of responses of arbitrarily many sequences
    (sequential interleaving), settings are arbitrary integers. *)
 From Coq Require Import List ZArith Bool Lia.
-From Verif Require Import C17.Model C17.Spec C17.Proofs C17.Ident.
+From Verif Require Import C17.Model C17.Spec C17.Proofs C17.Ident C17.Width.
 Import ListNotations.
 Open Scope Z_scope.
 
@@ -493,4 +493,51 @@ Example C17_flow_body_example :
   map (fun x => fout_code (snd x)) (snd (brun KeepSeq (fun _ => 2) body_witness)) = [0; 0; 0; 1] /\
   map (fun x => fout_code (snd x)) (snd (brun DropSeqOnDecodeError (fun _ => 2) body_witness)) = [0; 0; 1; 0] /\
   since_failed (0, 1) (snd (brun DropSeqOnDecodeError (fun _ => 2) body_witness)) = 3.
+Proof. vm_compute. repeat split; reflexivity. Qed.
+
+(* FLOWS MODE, the representation of the stored counter (Width.v).  With the
+   counter as wide as the configured budget (the code as it is: both are Go
+   ints) the run is the run of Model.frun, for every budget however large ... *)
+Theorem C17_flow_counter_int_is_model : forall att evs,
+  wrun CountInt att evs = frun att evs.
+Proof. exact wrun_int. Qed.
+Print Assumptions C17_flow_counter_int_is_model.
+
+(* ... hence the bound for ALL integer attempts (255, 256, 1000, ...), all
+   histories, all interleavings. *)
+Theorem C17_flow_counter_bound : flow_bound_with_counter CountInt.
+Proof. exact flow_bound_int. Qed.
+Print Assumptions C17_flow_counter_bound.
+
+(* The variant that keeps the counter in 8 bits (seeded change C17-12) does NOT
+   satisfy it: attempts 255, one sequence, 256 failing responses, 256 retries. *)
+Theorem C17_flow_counter_bound_uint8_refuted : ~ flow_bound_with_counter CountUint8.
+Proof. exact flow_bound_uint8_refuted. Qed.
+Print Assumptions C17_flow_counter_bound_uint8_refuted.
+
+(* Where exactly the narrow counter goes wrong: with every budget <= 254 it is
+   the same machine as the model (so no suite with small attempts can tell) ... *)
+Theorem C17_flow_counter_uint8_small_budgets : forall att evs,
+  (forall p, att p <= 254) ->
+  wrun CountUint8 att evs = frun att evs.
+Proof. exact wrun_uint8_small. Qed.
+Print Assumptions C17_flow_counter_uint8_small_budgets.
+
+(* ... and with every budget >= 255 it NEVER reports failure, in any history. *)
+Theorem C17_flow_counter_uint8_never_fails : forall att evs,
+  (forall p, 255 <= att p) ->
+  forall x, In x (snd (wrun CountUint8 att evs)) -> snd x <> FFailed.
+Proof. exact wrun_uint8_never_fails. Qed.
+Print Assumptions C17_flow_counter_uint8_never_fails.
+
+Example C17_flow_counter_example :
+  let evs := repeat (FExec 0 1) (Z.to_nat 258) in
+  let outs v a := map (fun x => fout_code (snd x)) (snd (wrun v (fun _ => a) evs)) in
+  (* attempts 255: 255 x retry, failed, then the reused id starts afresh *)
+  outs CountInt 255 = repeat 0 (Z.to_nat 255) ++ [1; 0; 0] /\
+  outs CountUint8 255 = repeat 0 (Z.to_nat 258) /\
+  (* attempts 254: the two agree, 254 x retry, failed, retry x 3 *)
+  outs CountUint8 254 = outs CountInt 254 /\
+  outs CountInt 254 = repeat 0 (Z.to_nat 254) ++ [1; 0; 0; 0] /\
+  since_failed (0, 1) (snd (wrun CountUint8 (fun _ => 255) evs)) = 258.
 Proof. vm_compute. repeat split; reflexivity. Qed.
